@@ -2,6 +2,7 @@
    ExtrOcamlBasic only: bool, option, unit, list, prod, sumbool, sumor map to the
    OCaml types; numbers (nat, positive, Z, N) stay Coq inductives. *)
 Require Import Capp.Base Capp.ListCache Capp.Rr Capp.Lfuda Capp.TtlLru Capp.UtMap Capp.Container.
+Require Import Capp.RrLit Capp.LruLit Capp.FifoLit.
 Require Extraction.
 Require Import ExtrOcamlBasic.
 
@@ -12,5 +13,14 @@ Definition zc_view_use : cstate Z Z -> Z -> option (Z * nat) := c_view_use.
 Definition zc_size : cstate Z Z -> nat := c_size.
 Definition zc_capacity : cstate Z Z -> option nat := c_capacity.
 
+(* the literal (L3) machines, for the white-box state comparison *)
+Definition zl_rr_init : nat -> rrl Z Z := rrl_init.
+Definition zl_rr_step : rrl Z Z -> op Z Z -> Z -> list nat -> res (rrl Z Z * ret Z Z) := l_step true.
+Definition zl_lru_init : nat -> lrul Z Z := lrul_init.
+Definition zl_lru_step : bool -> lrul Z Z -> op Z Z -> Z -> list nat -> res (lrul Z Z * ret Z Z) := ll_step.
+Definition zl_fifo_init : nat -> fifol Z Z := fifol_init.
+Definition zl_fifo_step : fifol Z Z -> op Z Z -> Z -> list nat -> res (fifol Z Z * ret Z Z) := fl_step.
+
 Extraction Language OCaml.
-Extraction "model.ml" zc_init zc_step zc_view zc_view_use zc_size zc_capacity.
+Extraction "model.ml" zc_init zc_step zc_view zc_view_use zc_size zc_capacity
+  zl_rr_init zl_rr_step zl_lru_init zl_lru_step zl_fifo_init zl_fifo_step.
